@@ -79,8 +79,8 @@ type Filter struct {
 	// Expiration for gated events.  It's important because without an
 	// expiration gated events that aren't flushed/processed could consume all
 	// available memory.  Expired events will be sent along if there's a Broker
-	// or deleted if there's no Broker. If no expiration is set the
-	// DefaultGatedEventTimeout will be used.
+	// or deleted if there's no Broker. If no (or a negative) expiration is set
+	// the DefaultGatedEventTimeout will be used.
 	Expiration time.Duration
 
 	// NowFunc is a func that returns the current time and the Filter and
@@ -135,7 +135,7 @@ func (w *Filter) Process(ctx context.Context, e *eventlogger.Event) (*eventlogge
 	if w.orderedGated == nil {
 		w.orderedGated = list.New()
 	}
-	if w.Expiration == 0 {
+	if w.Expiration <= 0 {
 		w.Expiration = DefaultEventTimeout
 	}
 	if w.composeFrom == nil {
@@ -202,7 +202,7 @@ func (w *Filter) processExpiredEvents(ctx context.Context) error {
 	if len(w.gated) == 0 {
 		return nil
 	}
-	if w.Expiration == 0 {
+	if w.Expiration <= 0 {
 		w.Expiration = DefaultEventTimeout
 	}
 
